@@ -6,6 +6,7 @@ import (
 	"go/token"
 	"go/types"
 	"regexp"
+	"strconv"
 	"strings"
 
 	"golang.org/x/tools/go/ssa"
@@ -107,8 +108,9 @@ func pacProxyCredentialsByProxy(r *R) {
 		}
 		n++
 		arg := describe(refArgs(c.Common())[1])
-		fromRequest := strings.HasPrefix(arg, "$1") || strings.Contains(arg, "$1.URL")
-		ofProxy := strings.Contains(arg, "pac.Prox") || strings.Contains(arg, ".URL(")
+		// the proxy's URL is the URL() of an entry the script's answer produced (the answer itself is computed from the request's URL)
+		ofProxy := strings.HasPrefix(arg, "(pac.Proxy).URL(") || !strings.Contains(arg, "$1") && (strings.Contains(arg, "pac.Prox") || strings.Contains(arg, ".URL("))
+		fromRequest := strings.HasPrefix(arg, "$1") || strings.Contains(arg, "$1.URL") && !strings.HasPrefix(arg, "(pac.Proxy).URL(")
 		r.check(!fromRequest && ofProxy, "pacProxy#credentials-lookup", c.Pos(), "table consulted with the selected proxy's URL", "the credential table is consulted with "+shorten(arg, 80)+": the PAC-selected proxy is sent the credentials of the request's target (and its own entry is ignored)")
 	})
 	if n == 0 {
@@ -305,6 +307,13 @@ func ownAddressFilter(r *R) {
 				flags[describe(entry.Params[i])] = constant.BoolVal(k.Value)
 			}
 		}
+		// other literal arguments (an enumeration instead of the flag): tests of them are decided by this caller too
+		consts := map[string]string{}
+		for i, a := range site.Common().Args {
+			if k, ok := a.(*ssa.Const); ok && k.Value != nil && k.Value.Kind() != constant.Bool && i < len(entry.Params) {
+				consts[describe(entry.Params[i])] = describe(a)
+			}
+		}
 		boolParams := 0
 		for _, q := range entry.Params {
 			if types.Identical(q.Type().Underlying(), types.Typ[types.Bool]) {
@@ -338,6 +347,14 @@ func ownAddressFilter(r *R) {
 					}
 					allFam = allFam || v
 					continue
+				}
+				if m := paramEqLiteral.FindStringSubmatch(k); m != nil {
+					if cv, ok := consts[m[1]]; ok {
+						if (cv == m[2]) != pol {
+							feasible = false
+						}
+						continue
+					}
 				}
 				switch {
 				case strings.Contains(k, "(net.IP).IsGlobalUnicast("):
@@ -380,6 +397,8 @@ func ownAddressFilter(r *R) {
 
 // a parameter of the entry compared with nil (a preset list, a test hook): decided before any address is looked at
 var paramNilTest = regexp.MustCompile(`^\(?\$\d+(\.[A-Za-z_.]+)? == nil\)?$`)
+
+var paramEqLiteral = regexp.MustCompile(`^\((\$\d+) == ([^ ()]+)\)$`)
 
 // listsInterfaces: g (or a function of its package it calls, three levels deep) calls net.Interfaces.
 func listsInterfaces(g *ssa.Function, depth int) bool {
@@ -430,6 +449,9 @@ func acceptBackoffClamped(r *R) {
 							good = false
 						}
 					}
+					if !good {
+						good = everyReturnAtMostASecond(g)
+					}
 				}
 			}
 		}
@@ -468,4 +490,39 @@ func mitmConnIsBuffered(r *R) {
 		}
 	}
 	r.check(n > 0 && len(why) == 0, "handleMITM#conn-is-buffered", fn.Pos(), fmt.Sprintf("%d paths switch to TLS, p.conn is the connection the readers use on each", n), strings.Join(dedupStrings(why), "; "))
+}
+
+// everyReturnAtMostASecond: the helper keeps the delay in a field; judged per path - what it returns is a literal of
+// at most a second, or a value the path has just compared with such a literal and found not above it.
+func everyReturnAtMostASecond(g *ssa.Function) bool {
+	ps, complete := enumPaths(g, 1024, 1)
+	if !complete || len(ps) == 0 {
+		return false
+	}
+	small := func(lit string) bool {
+		n, err := strconv.ParseInt(lit, 10, 64)
+		return err == nil && n > 0 && n <= 1_000_000_000
+	}
+	for _, p := range ps {
+		if len(p.Ret) == 0 || p.Ret[0] == "<panic>" {
+			continue
+		}
+		ret := p.Ret[0]
+		if small(ret) {
+			continue
+		}
+		ok := false
+		for _, c := range p.Conds {
+			k, pol := normCond(c)
+			for _, op := range []string{" <= ", " < "} {
+				if pol && strings.HasPrefix(k, "("+ret+op) && small(strings.TrimSuffix(strings.TrimPrefix(k, "("+ret+op), ")")) {
+					ok = true
+				}
+			}
+		}
+		if !ok {
+			return false
+		}
+	}
+	return true
 }
